@@ -7,6 +7,7 @@ Strings travel as hex of their UTF-8 bytes (decoded here with `utf8Decode`); whe
 is about UTF-8 itself, code points travel as a comma separated list (`u:65,233`).
 -/
 import NoulithModel.Spec.CodecSpec
+import NoulithModel.Impl.JsonText
 
 namespace Noulith.DriverC16
 open Noulith Noulith.Codec Noulith.CodecSpec
@@ -242,6 +243,26 @@ def decWF (d : Dec) : Bool :=
    | none => true
    | some (_, _, ds) => ds ≠ [])
 
+/-- the external float text functions as a lookup table supplied with the request:
+`b<16 hex bits>=<hex of text>` / `i<integer>=<hex of text>` (writer) and `t<hex of token>=<16 hex bits>` (parser) -/
+def floatTextOf (tbl : String) : FloatText :=
+  let entries : List (String × String) :=
+    if tbl = "-" then [] else (tbl.splitOn ",").filterMap fun e =>
+      match e.splitOn "=" with
+      | [k, v] => some (k, v)
+      | _ => none
+  { fmt := fun f =>
+      let key := match f with
+        | .bits b => "b" ++ hex16 b
+        | .ofInt v => "i" ++ toString v
+      match entries.lookup key with
+      | some h => ((unhex h).bind utf8Decode).getD [63]
+      | none => [63]
+    parse := fun tok =>
+      match entries.lookup ("t" ++ hexOfBytes (utf8Encode tok)) with
+      | some h => (unhex h).map fun bs => F64.bits (bs.foldl (fun acc b => acc * 256 + b) 0)
+      | none => none }
+
 def two (a b : String) : String := a ++ "\t" ++ b
 def outS {α} (f : α → String) (o : Out α) : String := o.render f
 
@@ -445,6 +466,22 @@ def handle (args : List String) : String :=
         | _ => "throw")
     | none => "bad-op"
   | "echo" :: rest => two (joinWith " " rest) (joinWith " " rest)
+  | ["json_text", v, tbl] =>
+    -- byte-for-byte text of json_encode
+    match parseVal 100000 v.toList with
+    | some (x, []) => two (outS renderStr (jsonEncodeText (floatTextOf tbl) x)) "nopanic"
+    | _ => "bad-op"
+  | ["json_parse", t, tbl] =>
+    match parseStr t with
+    | some text => two (outS renderVal (jsonDecodeText (floatTextOf tbl) text)) "nopanic"
+    | none => "bad-op"
+  | ["json_rt_text", v, tbl] =>
+    match parseVal 100000 v.toList with
+    | some (x, []) =>
+      let ft := floatTextOf tbl
+      two (outS renderVal ((jsonEncodeText ft x).bind (jsonDecodeText ft)))
+          (if jsonShapedB x then "ok " ++ renderVal x else "nopanic")
+    | _ => "bad-op"
   | ["gzip_rt", b] =>
     match parseBytes b with
     | some bs => two ("ok " ++ renderBytes bs) ("ok " ++ renderBytes bs)
